@@ -9,5 +9,6 @@ CONSTANTS N = 3
   G_SCALAR = TRUE
   G_STMFIRST = TRUE
   G_CHAIN = TRUE
+  G_GLOBDEPTH = FALSE
 INVARIANTS EmitCase NoOverflow WorkBounded ChainBounded
 CHECK_DEADLOCK TRUE
